@@ -201,8 +201,11 @@ where
         timestamp: Instant::now(),
     });
 
-    // Channel to collect results from all attempts
-    let (tx, mut rx) = mpsc::channel::<(usize, Result<S::Response, S::Error>)>(max_attempts);
+    // Channel to collect results from all attempts. Attempts `send().await`, so a capacity
+    // below max_attempts only makes late senders wait for the collector; an unbounded
+    // max_hedged_attempts must not become the capacity (tokio panics above MAX_PERMITS).
+    let (tx, mut rx) =
+        mpsc::channel::<(usize, Result<S::Response, S::Error>)>(max_attempts.clamp(1, 1024));
 
     // The instance handed in was driven to readiness by poll_ready: the primary uses it.
     // Hedges run on clones, which must observe readiness themselves before being called.
